@@ -659,6 +659,7 @@ def join_all(R, fn):
     inverted guard with `continue` is the same as the guarded join."""
     from .. import norm
     from .c26 import counted_loop
+    orig = fn
     fn = norm.nest(fn, fatal=False)
     body = cir.body(fn)
     top = []
@@ -719,7 +720,7 @@ def join_all(R, fn):
             if cs and cs[0] == ">":
                 cs = ("<", cs[2], cs[1])
             ivid = cxx.ref_id(cs[1]) if cs and cs[0] in ("<", "!=") else None
-            if ivid is None or lbody is None or not _is_worker_count(R, cs[2], fn):
+            if ivid is None or lbody is None or not _is_worker_count(R, cs[2], orig):
                 unread.append(s)
                 continue
             cl = counted_loop(body, s, ivid)
@@ -1514,8 +1515,31 @@ _HELPER_OLD_W = "      while (true) {\n        int taskId = next_.fetch_add(1, s
 _HELPER_DEF = ("  void RunTasks(int tid) {\n    while (true) {\n      int taskId = next_.fetch_add(1, std::memory_order_relaxed);\n"
                "      if (taskId >= ntask_) {\n        break;\n      }\n      func_(model_, data_, arg_, tid, taskId);\n    }\n  }\n\n")
 
+_HELPER_FOR = ("  void RunTasks(int tid) {\n    for (int taskId = next_.fetch_add(1, std::memory_order_relaxed);\n"
+               "         taskId < ntask_;\n         taskId = next_.fetch_add(1, std::memory_order_relaxed)) {\n"
+               "      func_(model_, data_, arg_, tid, taskId);\n    }\n  }\n\n")
+_JOIN_LOOP = "    for (auto& thread : threads_) {\n      if (thread.joinable()) {\n        thread.join();\n      }\n    }"
+_POOL_OLD = ("  if (d->threadpool) {\n    ThreadPoolContext* ctx =\n        reinterpret_cast<ThreadPoolContext*>(d->threadpool);\n"
+             "    // same size, nothing to do\n    if (nthread == ctx->ThreadCount()) {\n        return;\n    }\n    delete ctx;\n")
+_POOL_NEW = ("  if (ThreadPoolContext* pool = GetThreadPool(d); pool != nullptr) {\n"
+             "    // same size, nothing to do\n    if (pool->ThreadCount() == nthread) {\n        return;\n    }\n    delete pool;\n")
+
 MUTANTS = [
     # ---- must fire
+    {"id": "worker-leaves-on-other-value", "expect": ("R-SHUTDOWN", "stop-store:signal_"),
+     "edits": [(TU, "      if (status == 0) {\n        return;\n      }", "      if (status == 2) {\n        return;\n      }")]},
+    {"id": "worker-ignores-stop-value", "expect": ("R-SHUTDOWN", "stop-store:signal_"),      # no exit value: refused
+     "edits": [(TU, "      if (status == 0) {\n        return;\n      }", "      if (status == 0) {\n        continue;\n      }")]},
+    {"id": "dtor-joins-only-unjoinable", "expect": ("R-SHUTDOWN", "join-every-element:threads_"),
+     "edits": [(TU, _JOIN_LOOP, "    for (size_t k = 0; k < threads_.size(); k++) {\n      std::thread& worker = threads_[k];\n"
+                                "      if (worker.joinable()) {\n        continue;\n      }\n      worker.join();\n    }")]},
+    {"id": "dtor-index-join-from-one", "expect": ("R-SHUTDOWN", "join-every-element:threads_"),     # refused or reported
+     "edits": [(TU, _JOIN_LOOP, "    for (size_t k = 1; k < threads_.size(); ++k) {\n      threads_[k].join();\n    }")]},
+    {"id": "threadpool-accessor-no-delete", "expect": ("R-POOL-REPLACE", "mju_threadpool:delete-before-replace"),
+     "edits": [(TU, "// create a thread pool with nthread threads\n",
+                "static ThreadPoolContext* GetThreadPool(const mjData* d) {\n  return reinterpret_cast<ThreadPoolContext*>(d->threadpool);\n}\n\n"
+                "// create a thread pool with nthread threads\n"),
+               (TU, _POOL_OLD, _POOL_NEW.replace("    delete pool;\n", ""))]},
     {"id": "publish-relaxed", "expect": ("R-PUBLISH-ORDER", "Dispatch:publish:signal_"),
      "edits": [(TU, "                 std::memory_order_release);", "                 std::memory_order_relaxed);")]},
     {"id": "worker-acquire-both-relaxed", "expect": ("R-PUBLISH-ORDER", "Worker:read-after-acquire:ntask_"),
@@ -1595,6 +1619,32 @@ MUTANTS = [
     {"id": "ok-poll-as-for-break", "expect": None,
      "edits": [(TU, "    while (ndone_.load(std::memory_order_acquire) < nthread) {\n    }",
                 "    for (;;) {\n      if (ndone_.load(std::memory_order_acquire) >= nthread) break;\n    }")]},
+    # refactored shapes (refactors/D-p1): helper with the claim in a for header, break out of the main loop, index join loop
+    # with a reference local and an inverted guard, while-form join loop, pool accessor helper + if-init + early returns
+    {"id": "ok-extract-helper-for-loop", "expect": None,
+     "edits": [(TU, _HELPER_OLD_D, "    RunTasks(/*threadId=*/0);\n"), (TU, _HELPER_OLD_W, "      RunTasks(threadId);\n"),
+               (TU, "  // worker loop for each worker thread\n", _HELPER_FOR + "  // worker loop for each worker thread\n")]},
+    {"id": "ok-worker-break-out-of-main-loop", "expect": None,
+     "edits": [(TU, "      if (status == 0) {\n        return;\n      }", "      if (status == 0) {\n        break;\n      }"),
+               (TU, "    // main loop waiting for next batch of tasks\n    while (true) {", "    // main loop waiting for next batch of tasks\n    for (;;) {"),
+               (TU, "status", "last_signal", 99)]},
+    {"id": "ok-worker-negated-stop-test", "expect": None,
+     "edits": [(TU, "      if (status == 0) {\n        return;\n      }", "      if (!status) {\n        return;\n      }")]},
+    {"id": "ok-index-join-loop-inverted-guard", "expect": None,
+     "edits": [(TU, _JOIN_LOOP, "    for (size_t k = 0; k < threads_.size(); k++) {\n      std::thread& worker = threads_[k];\n"
+                                "      if (!worker.joinable()) {\n        continue;\n      }\n      worker.join();\n    }")]},
+    {"id": "ok-while-join-loop", "expect": None,
+     "edits": [(TU, _JOIN_LOOP, "    size_t k = 0;\n    while (k < threads_.size()) {\n      if (threads_[k].joinable()) {\n"
+                                "        threads_[k].join();\n      }\n      ++k;\n    }")]},
+    {"id": "ok-pool-accessor-early-returns", "expect": None,
+     "edits": [(TU, "// create a thread pool with nthread threads\n",
+                "static ThreadPoolContext* GetThreadPool(const mjData* d) {\n  return reinterpret_cast<ThreadPoolContext*>(d->threadpool);\n}\n\n"
+                "// create a thread pool with nthread threads\n"),
+               (TU, _POOL_OLD, _POOL_NEW),
+               (TU, "  if (nthread >= 1) {\n    d->threadpool = reinterpret_cast<uintptr_t>(new ThreadPoolContext(nthread));\n  }\n",
+                "  if (nthread < 1) {\n    return;\n  }\n  d->threadpool = reinterpret_cast<uintptr_t>(new ThreadPoolContext(nthread));\n"),
+               (TU, "  ThreadPoolContext* ctx = reinterpret_cast<ThreadPoolContext*>(d->threadpool);\n  return ctx ? ctx->ThreadCount() + 1 : 1;",
+                "  const ThreadPoolContext* pool = GetThreadPool(d);\n  if (!pool) {\n    return 1;\n  }\n  return pool->ThreadCount() + 1;")]},
     {"id": "ok-index-join-loop", "expect": None,
      "edits": [(TU, "    for (auto& thread : threads_) {\n      if (thread.joinable()) {\n        thread.join();\n      }\n    }",
                 "    for (size_t k = 0; k < threads_.size(); ++k) {\n      threads_[k].join();\n    }")]},
